@@ -584,6 +584,18 @@ apply(const struct ev_s *e)
 		}
 	}
 	check_state(e, s0, exp_spawn, exp_nd);
+	/* a task with nothing left to run may be dropped whenever the daemon likes: follow it */
+	{
+		struct hx_task_s obs[HX_MAXTASKS];
+		int nobs = hx_observe(obs);
+		for (int i = 0; i < M_MAXT; i++) {
+			struct mtask_s *t = &M.t[i];
+			int seen = 0;
+			if (!t->present || !(t->zombie || (t->next >= t->nocc && t->fired))) continue;
+			for (int j = 0; j < nobs; j++) seen |= !strcmp(obs[j].uid, t->uid);
+			if (!seen) t->present = 0;
+		}
+	}
 	/* every real execution must be watched (else its exit is never noticed) */
 	for (int c = 0; c < M.nchld; c++) {
 		int w = 0;
